@@ -106,26 +106,31 @@ def identity_make_exact(h):
 
 
 @contextlib.contextmanager
-def fd_env(exact_factorial=True, stub_make_exact=True, symkey_cache=True):
-    """overlays for finite_difference + extrapolation with the algebraic sqrt(2), exact factorial and the pinv /
+def fd_env(exact_factorial=True, stub_make_exact=True, symkey_cache=True, names=('fd', 'ex'), **proxy_kw):
+    """overlays for the named repo modules with the algebraic sqrt(2), exact factorial and the pinv /
     convolve1d dependency contracts; _SQRT_J re-evaluated from its defining expression."""
     m = mods()
-    fd, ex = m['fd'], m['ex']
-    proxy = NpProxy(algebraic_sqrt=True)
+    fd, sg = m['fd'], m['sg']
+    proxy = NpProxy(algebraic_sqrt=True, **proxy_kw)
     del PINV_LOG[:]
-    with installed(fd, ex, np=proxy):
+    with installed(*[m[k] for k in names], np=proxy):
         fd.special.exact = exact_factorial
-        old = fd._SQRT_J, fd.FD_RULES, fd.make_exact
-        val, txt = cut.reeval_constant(fd, '_SQRT_J')
-        fd._SQRT_J = val
+        old = fd._SQRT_J, fd.FD_RULES, fd.make_exact, sg.make_exact
+        if 'fd' in names:
+            val, txt = cut.reeval_constant(fd, '_SQRT_J')
+            fd._SQRT_J = val
         if symkey_cache:
             fd.FD_RULES = SymKeyDict()
         if stub_make_exact:
             fd.make_exact = identity_make_exact
+            sg.make_exact = identity_make_exact
         try:
             yield m
         finally:
-            fd._SQRT_J, fd.FD_RULES, fd.make_exact = old
+            fd._SQRT_J, fd.FD_RULES, fd.make_exact, sg.make_exact = old
+
+
+ALL = ('core', 'lm', 'ex', 'fd', 'sg', 'mc')
 
 
 def taylor_poly(x, D, prefix='b', complex_coef=False):
